@@ -4,6 +4,7 @@
 -/
 import XC.Model.C44
 import XC.Proofs.C46_CS
+import XC.Proofs.C44_PW
 namespace XC.C44
 open XC
 
@@ -57,7 +58,21 @@ theorem header_roundtrip (tag n : Nat) (ht : tag < 64) (hn : n < 2 ^ 32) (body :
       have a2 : ¬ ((255 : UInt8) < 224) := by decide
       have a3 : ¬ ((255 : UInt8) < 255) := by decide
       simp only [h1, h2, ↓reduceIte, List.cons_append, C45.readHeader, h80, h40,
-        Bool.false_eq_true, ↓reduceIte, C45.readLength, a1, a2, a3, hb, htg, hv]
+        Bool.false_eq_true, ↓reduceIte, C45.readLength, a1, a2, a3, hb, htg, hv, List.nil_append]
+
+/-! ## partial-length writer / reader -/
+
+/-- **partial_roundtrip** (proved in `XC.Proofs.C44_PW`): any sequence of Writes to the partial-length
+    writer, then Close, is read back by the partial-length reader as the concatenation of the writes,
+    without error, and the reader stops exactly at the end of the packet. -/
+theorem partial_roundtrip_any_chunking (chunks : List Bytes) (tail : Bytes) :
+    readStream (pwAll chunks ++ tail) = (chunks.flatten, none, tail) :=
+  partial_roundtrip chunks tail
+
+/-- every partial chunk the writer emits has a length octet in 224..254 announcing a power of two ≤ 2^30 -/
+theorem partial_length_octet (k : Nat) (hk : k ≤ 30) (rest : Bytes) :
+    C45.readLength (UInt8.ofNat (224 + k) :: rest) = .ok (2 ^ k, true, rest) :=
+  readLength_partial k hk rest
 
 /-! ## canonical text filter: chunk independence -/
 
@@ -118,8 +133,7 @@ theorem canonical_text_eq_cth (chunks : List Bytes) : (cthChunks false chunks).2
 
 /-- **mdc_accept_iff** (decision structure of `Close` after EOF): the check passes exactly when the
     22 trailing bytes are `D3 14` followed by the hash of prefix ‖ delivered plaintext ‖ `D3 14`. -/
-theorem mdc_accept_iff (H : Bytes → Bytes) (pre : Bytes) (st : MDCR) (hl : st.trailer.length = 22)
-    (hH : ∀ x, (H x).length = 20) :
+theorem mdc_accept_iff (H : Bytes → Bytes) (pre : Bytes) (st : MDCR) :
     mdcCheck H pre st = .ok ↔ st.trailer = mdcTag ++ H (pre ++ st.hashed ++ mdcTag) := by
   unfold mdcCheck
   constructor
@@ -142,11 +156,11 @@ theorem mdc_accept_iff (H : Bytes → Bytes) (pre : Bytes) (st : MDCR) (hl : st.
     simp
 
 /-- what the MDC writer appends is accepted by the reader's check -/
-theorem mdc_seal_accepted (H : Bytes → Bytes) (pre pt : Bytes) (hH : ∀ x, (H x).length = 20) :
+theorem mdc_seal_accepted (H : Bytes → Bytes) (pre pt : Bytes) :
     mdcCheck H pre { trailer := (mdcSeal H pre pt).drop pt.length, hashed := pt } = .ok := by
   have : (mdcSeal H pre pt).drop pt.length = mdcTag ++ H (pre ++ pt ++ mdcTag) := by
     simp [mdcSeal, List.append_assoc]
   rw [this]
-  exact (mdc_accept_iff H pre _ (by simp [mdcTag, hH]) hH).2 rfl
+  exact (mdc_accept_iff H pre _).2 rfl
 
 end XC.C44
